@@ -164,6 +164,32 @@ func initAllowed(path string) bool {
 	return strings.HasPrefix(path, "github.com/cockroachdb/redact")
 }
 
+// Packages whose init is expensive and rarely needed (unicode: the range
+// tables) are initialised on the first access to one of their globals,
+// once per worker; the initialised cells join the shared standard-library
+// state.
+func lazyInitPkg(path string) bool { return path == "unicode" }
+
+var lazyInitDone = map[*ssa.Package]bool{}
+var lazyInitRunning bool
+var lazyInitForce bool
+
+func runLazyInit(i *interpreter, pkg *ssa.Package) {
+	lazyInitRunning = true
+	lazyInitForce = true
+	defer func() { lazyInitRunning = false; lazyInitForce = false }()
+	call(i, nil, token.NoPos, pkg.Func("init"), nil)
+	lazyInitDone[pkg] = true
+	shared := sharedGlobals[curProgram]
+	for g, cell := range i.globals {
+		if g.Pkg == pkg && shared != nil {
+			shared[g] = cell
+		}
+	}
+}
+
+var curProgram *Program
+
 func hname(name string) string { return HarnessPkg + "." + name }
 
 func init() {
@@ -731,6 +757,7 @@ func (w *Worker) collect(t *Task, pc *pathCtx, outcome string, res *TaskResult, 
 var sharedGlobals = map[*Program]map[*ssa.Global]*value{}
 
 func runOnce(p *Program, t *Task) (outcome string) {
+	curProgram = p
 	mainpkg := p.Harness
 	i := &interpreter{
 		prog:       mainpkg.Prog,
